@@ -8,6 +8,8 @@ import Apko.Proofs.Lemmas.FSTree
 import Apko.Proofs.Lemmas.FSDirBit
 import Apko.Proofs.Lemmas.FSWalk
 import Apko.Proofs.Lemmas.FSSub
+import Apko.Proofs.Lemmas.FSWalkDir
+import Apko.Proofs.Lemmas.FSSymBit
 import Apko.Proofs.Lemmas.TarWalk
 import Apko.Generated.FS
 /-! C17 — the virtual file systems behave like a file system (theorems over `Model/FS.lean`) -/
@@ -504,6 +506,42 @@ theorem walk_complete_needs_tree : Inv selfLoop ∧ ¬ Tree selfLoop ∧
     ¬ (∀ q j, (q, j) ∈ walk selfLoop → (selfLoop.node j).dir = true →
         ∀ e ∈ readdir selfLoop j, (q ++ [e.1], e.2) ∈ walk selfLoop) :=
   ⟨selfLoop_inv, selfLoop_not_tree, FS.walk_complete_needs_tree⟩
+
+/-- **fs.WalkDir returns** (C15's "the FS walk terminates"): the walk as the code runs it — by path,
+through `Stat` and `ReadDir` of the public API (`walkDirOp`, what the driver executes for the `walk`
+operation of `corr:fs`; `none` is the `HANG` outcome) — returns on every well-formed state whose
+directories are not symbolic links, from any root.  Before F17h the Go function did not (witness
+corpus/fs/F17h-*.json).  The step that carries it: `Join(name, child)` resolves to the child node. -/
+theorem walkdir_returns (b : Backend) (fs : FS) (h : WF fs) (hs : SymOK fs) (root : Text) :
+    (walkDirOp (Cfg.impl b) fs id root).isSome = true :=
+  walkDirOp_some (c := Cfg.impl b) rfl h.1 h.2.2 hs root
+
+/-- **symok_step**: directories stay distinct from symbolic links under every operation whose
+permission argument carries no `ModeSymlink` bit -/
+theorem symok_step (c : Cfg) (fs : FS) (op : Op) (hm : opSymOK op) (hb : SymOK fs) : SymOK (step c fs op).1 :=
+  FS.symok_step c fs op hm hb
+
+theorem symok_run (c : Cfg) : ∀ (ops : List Op) (fs : FS), (∀ op ∈ ops, opSymOK op) → SymOK fs → SymOK (run c fs ops).1 := by
+  intro ops
+  induction ops with
+  | nil => intro fs _ h; exact h
+  | cons op rest ih =>
+    intro fs hm h
+    simp only [run]
+    exact ih _ (fun o ho => hm o (List.mem_cons_of_mem _ ho)) (symok_step c fs op (hm op List.mem_cons_self) h)
+
+/-- … in particular on every state memfs / tarfs can reach: **the walk of the layer writer and of the
+recursive permissions mutation returns after any sequence of operations** (permission arguments
+without file-type bits) -/
+theorem walkdir_returns_reachable (b : Backend) (ops : List Op)
+    (hm : ∀ op ∈ ops, opModeOK op) (hs : ∀ op ∈ ops, opSymOK op) (root : Text) :
+    (walkDirOp (Cfg.impl b) (run (Cfg.impl b) FS.empty ops).1 id root).isSome = true :=
+  walkdir_returns b _ (wf_reachable _ ops hm) (symok_run _ ops FS.empty hs SB.empty.toSymOK) root
+
+theorem join_child_resolves (b : Backend) (fs : FS) (h : WF fs) (name : Text) (n : Name) (i j : Ino)
+    (hg : getNode (Cfg.impl b) fs name = .ok i) (hd : (fs.node i).dir = true) (hl : fs.lookup i n = some j)
+    (hsym : (fs.node j).isSymlink = false) : getNode (Cfg.impl b) fs (join2 name n) = .ok j :=
+  getNode_child (c := Cfg.impl b) rfl h.2.2 name n i j hg hd hl hsym
 
 /-! ### SubFS = the base file system under a prefix -/
 
